@@ -1,8 +1,11 @@
 """Shared machinery of the C08 / C09 checks (half_float::half against specs/Half.tla).
 
-Operand grids and request files (inputs only - nothing here predicts a result), the two harness
-builds (with and without F16C), TLC table validation jobs (specs/HalfCheck.tla), extraction of the
-failing operand tuple from TLC's counterexample, confirmation by re-execution, replay."""
+Operand grids and request files (inputs only - nothing here predicts a result); the signature probe (a generated static_assert
+table compiled before the driver); the driver builds (software / F16C conversions, a second compiler with -O2 -DNDEBUG, more in
+the thorough tier); recording with restart after a row on which the driver crashes or does not return; the enumeration of operand
+pairs from the oracle's case analysis (specs/HalfCases.tla, TLC with VIEW = case key); TLC table validation jobs
+(specs/HalfCheck.tla); extraction of the failing operand tuple from TLC's counterexample; confirmation by re-execution with the
+same build and rounding direction (capped); replay."""
 import json, os, random, re, struct, hashlib, subprocess
 from concurrent.futures import ThreadPoolExecutor
 from vlib import core
@@ -45,9 +48,24 @@ MANT_MORE = [3, 4, 5, 7, 8, 0xFF, 0x100, 0x101, 0x155, 0x2AA, 0x300, 0x333, 0x0C
              0x17F, 0x180, 0x3C0, 0x040]
 
 
+# Operands every grid contains by construction, whatever the seed: both zeros, the smallest and largest subnormal, the
+# smallest normal, +-1 and its neighbours, the largest finite value and its predecessor, the values whose sum with the largest
+# finite value sits on / next to the overflow threshold (16 = half an ulp of 65504), infinities, quiet and signalling NaNs of
+# both signs, the all-ones NaN.
+REQUIRED = [0x0000, 0x8000, 0x0001, 0x8001, 0x03FF, 0x83FF, 0x0400, 0x8400, 0x0401, 0x3C00, 0xBC00, 0x3BFF, 0x3C01, 0x7BFF, 0xFBFF, 0x7BFE,
+            0x4C00, 0x4BFF, 0x4C01, 0xCC00, 0x7C00, 0xFC00, 0x7E00, 0xFE00, 0x7C01, 0xFC01, 0x7FFF, 0x7DFF]
+
+
+def require_specials(S, what):
+    missing = [h for h in REQUIRED if h not in set(S)]
+    if missing:
+        raise MachineryError("operand grid %s lacks required special operands %s" % (what, [hex(h) for h in missing]))
+    return S
+
+
 def grid(seed, size, salt=0):
-    """Structured boundary grid: every exponent x boundary fractions x both signs (zeros, subnormals,
-    infinities, quiet and signalling NaNs included), then further fractions, then seeded random halves."""
+    """Structured boundary grid: the REQUIRED special operands, every exponent x boundary fractions x both signs (zeros,
+    subnormals, infinities, quiet and signalling NaNs included), then further fractions, then seeded random halves."""
     rnd = random.Random(seed * 7919 + salt)
     S = []
     seen = set()
@@ -56,6 +74,8 @@ def grid(seed, size, salt=0):
         if h not in seen and len(S) < size:
             seen.add(h)
             S.append(h)
+    for h in REQUIRED:
+        add(h)
     room = size - max(16, size // 8)          # at least an eighth of the grid is seeded random halves
     for m in MANT8:
         for e in range(32):
@@ -71,7 +91,7 @@ def grid(seed, size, salt=0):
                     add((s << 15) | (e << 10) | m)
     while len(S) < size:
         add(rnd.getrandbits(16))
-    return S
+    return require_specials(S, "grid")
 
 
 def small_grid(seed, size, salt=0):
@@ -82,14 +102,14 @@ def small_grid(seed, size, salt=0):
     def add(h):
         if h not in seen and len(S) < size:
             seen.add(h); S.append(h)
-    for h in (0, 0x8000, 0x7C00, 0xFC00, 0x7E00, 0x7D00, 1, 0x8001, 0x3FF, 0x400, 0x7BFF, 0xFBFF, 0x3C00, 0xBC00):
+    for h in REQUIRED + [0x7D00]:
         add(h)
     for e in range(31):
         for s in (0, 1):
             add((s << 15) | (e << 10) | rnd.choice(MANT8 + [rnd.getrandbits(10)]))
     while len(S) < size:
         add(rnd.getrandbits(16))
-    return S
+    return require_specials(S, "small_grid")
 
 
 def hdr(S=None, E=None):
@@ -270,15 +290,188 @@ def chunks(xs, n):
     return [xs[i:i + n] for i in range(0, len(xs), n)]
 
 
+# ------------------------------------------------------------------ signature probe
+# The calls the driver makes, with the result types C / C++ <cmath> fix for them.  Each row is one static_assert; the table is
+# compiled before the driver is.  A row that fails (or no longer compiles) is a finding about xtl - the operation the property
+# names is not there with its signature - and is reported as such instead of ending in "the harness does not compile".
+def _probe_rows():
+    H = "half_float::half"
+    rows = [("sizeof(half) == 2", "sizeof(H) == 2"),
+            ("half is trivially copyable (its bits are its value)", "std::is_trivially_copyable<H>::value")]
+
+    def same(what, expr, typ):
+        rows.append(("%s has type %s" % (what, typ), "std::is_same<decltype(%s), %s>::value" % (expr, typ)))
+    for op in ("+", "-", "*", "/"):
+        same("half %s half" % op, "h() %s h()" % op, "H")
+    for op in ("+=", "-=", "*=", "/="):
+        same("half %s half" % op, "lv() %s h()" % op, "H&")
+    same("-half", "-h()", "H"); same("+half", "+h()", "H")
+    same("++half", "++lv()", "H&"); same("half++", "lv()++", "H"); same("--half", "--lv()", "H&"); same("half--", "lv()--", "H")
+    for op in ("==", "!=", "<", ">", "<=", ">="):
+        same("half %s half" % op, "h() %s h()" % op, "bool")
+        same("half %s float" % op, "h() %s 1.0f" % op, "bool")
+    for f in ("isnan", "isinf", "isfinite", "isnormal", "signbit"):
+        same(f + "(half)", "half_float::%s(h())" % f, "bool")
+    for f in ("isgreater", "isgreaterequal", "isless", "islessequal", "islessgreater", "isunordered"):
+        same(f + "(half, half)", "half_float::%s(h(), h())" % f, "bool")
+    same("fpclassify(half)", "half_float::fpclassify(h())", "int")
+    for f in ("fabs", "abs", "sqrt", "ceil", "floor", "trunc", "round", "rint", "nearbyint", "logb", "exp", "exp2", "expm1", "log", "log10", "log2",
+              "log1p", "cbrt", "sin", "cos", "tan", "asin", "acos", "atan", "sinh", "cosh", "tanh", "asinh", "acosh", "atanh", "erf", "erfc",
+              "lgamma", "tgamma"):
+        same(f + "(half)", "half_float::%s(h())" % f, "H")
+    for f in ("copysign", "fmod", "remainder", "fdim", "fmax", "fmin", "nextafter", "atan2", "pow", "hypot"):
+        same(f + "(half, half)", "half_float::%s(h(), h())" % f, "H")
+    same("fma(half, half, half)", "half_float::fma(h(), h(), h())", "H")
+    same("hypot(half, half, half)", "half_float::hypot(h(), h(), h())", "H")
+    same("remquo(half, half, int*)", "half_float::remquo(h(), h(), (int*)0)", "H")
+    same("frexp(half, int*)", "half_float::frexp(h(), (int*)0)", "H")
+    same("modf(half, half*)", "half_float::modf(h(), (H*)0)", "H")
+    same("sincos(half, half*, half*)", "half_float::sincos(h(), (H*)0, (H*)0)", "void")
+    same("ldexp(half, int)", "half_float::ldexp(h(), 1)", "H"); same("scalbn(half, int)", "half_float::scalbn(h(), 1)", "H")
+    same("scalbln(half, long)", "half_float::scalbln(h(), 1L)", "H")
+    same("nexttoward(half, long double)", "half_float::nexttoward(h(), 1.0L)", "H")
+    same("ilogb(half)", "half_float::ilogb(h())", "int")
+    same("lround(half)", "half_float::lround(h())", "long"); same("lrint(half)", "half_float::lrint(h())", "long")
+    same("llround(half)", "half_float::llround(h())", "long long"); same("llrint(half)", "half_float::llrint(h())", "long long")
+    same("nanh(const char*)", 'half_float::nanh("")', "H")
+    same("static_cast<float>(half)", "static_cast<float>(h())", "float")
+    for t in ("float", "double", "long double", "int", "long", "long long"):
+        same("half_cast<%s>(half)" % t, "half_float::half_cast<%s>(h())" % t, t)
+    for t, v in (("float", "1.0f"), ("double", "1.0"), ("long double", "1.0L"), ("int", "1"), ("long", "1L"), ("long long", "1LL"), ("short", "(short)1"),
+                 ("unsigned", "1u"), ("signed char", "(signed char)1")):
+        same("half_cast<half>(%s)" % t, "half_float::half_cast<H>(%s)" % v, "H")
+    same("half_cast<half>(half)", "half_float::half_cast<H>(h())", "H")
+    same("std::hash<half>()(half)", "std::hash<H>()(h())", "std::size_t")
+    rows.append(("half is constructible from float, double and int", "std::is_constructible<H, float>::value && std::is_constructible<H, double>::value && std::is_constructible<H, int>::value"))
+    rows.append(("half is assignable from float", "std::is_assignable<H&, float>::value"))
+    rows.append(("std::numeric_limits<half> is specialised", "std::numeric_limits<H>::is_specialized"))
+    for m in ("min", "lowest", "max", "epsilon", "round_error", "infinity", "quiet_NaN", "signaling_NaN", "denorm_min"):
+        same("numeric_limits<half>::%s()" % m, "std::numeric_limits<H>::%s()" % m, "H")
+    for m in ("digits", "digits10", "max_digits10", "radix", "min_exponent", "min_exponent10", "max_exponent", "max_exponent10"):
+        same("numeric_limits<half>::%s" % m, "std::numeric_limits<H>::%s" % m, "const int")
+    for m in ("is_signed", "is_integer", "is_exact", "is_bounded", "is_iec559", "has_infinity", "has_quiet_NaN", "has_signaling_NaN", "traps", "tinyness_before",
+              "is_modulo", "has_denorm_loss"):
+        same("numeric_limits<half>::%s" % m, "std::numeric_limits<H>::%s" % m, "const bool")
+    same("numeric_limits<half>::has_denorm", "std::numeric_limits<H>::has_denorm", "const std::float_denorm_style")
+    same("numeric_limits<half>::round_style", "std::numeric_limits<H>::round_style", "const std::float_round_style")
+    same("HUGE_VALH", "HUGE_VALH", "H")
+    same("HLF_ROUNDS", "HLF_ROUNDS", "int")
+    same("operator<<(ostream&, half)", "std::declval<std::ostream&>() << h()", "std::ostream&")
+    same("operator>>(istream&, half&)", "std::declval<std::istream&>() >> lv()", "std::istream&")
+    same("a _h literal", "half_float::literal::operator\"\"_h(1.0L)", "H")
+    return rows
+
+
+PROBE_HEAD = """#include <type_traits>
+#include <utility>
+#include <functional>
+#include <limits>
+#include <iostream>
+#include "xtl/xhalf_float.hpp"
+typedef half_float::half H;
+static H h();
+static H& lv();
+"""
+
+
+def probe_signatures(ctx, what):
+    """Compile the signature table against the tree under test.  Returns the number of rows that fail; each failing row is a
+    violation (confirmed by compiling that row alone)."""
+    rows = _probe_rows()
+    d = ctx.sub("probe")
+    nhead = PROBE_HEAD.count("\n")
+
+    def src(sel):
+        # one row per line, a placeholder line for rows left out: line number <-> row
+        body = "".join(("static_assert(%s, \"ROW %d\");\n" % (expr, n)) if sel is None or n in sel else "\n" for n, (_, expr) in enumerate(rows))
+        return PROBE_HEAD + body + "int main() { return 0; }\n"
+
+    def compile_(name, sel):
+        path = os.path.join(d, name + ".cpp")
+        with open(path, "w") as f:
+            f.write(src(sel))
+        rc, out = core.sh([core.CXX, "-std=c++14", "-fsyntax-only", "-fmax-errors=0", "-I", core.INCLUDE, path], timeout=600)
+        return rc, out, path
+    rc, out, path = compile_("all", None)
+    ctx.notes["signature_probe_rows"] = len(rows)
+    if rc == 0:
+        return 0
+    if rc == 124:
+        raise MachineryError("signature probe timed out")
+    # which rows?  the diagnostics name the line of the probe file
+    bad = sorted(set(int(m) - nhead - 1 for m in re.findall(re.escape(path) + r":(\d+):\d+: error", out)))
+    bad = [n for n in bad if 0 <= n < len(rows)]
+    if not bad:
+        rc0, out0, _ = compile_("none", set())
+        if rc0 != 0:
+            raise MachineryError("xtl/xhalf_float.hpp itself does not compile under the tree under test:\n%s" % "\n".join(l for l in out0.splitlines() if "error" in l)[:3000])
+        raise MachineryError("signature probe fails but no row can be blamed:\n%s" % out[-3000:])
+    confirmed = 0
+    for n in bad[:8]:
+        rc2, out2, _ = compile_("row%d" % n, {n})
+        if rc2 == 0:
+            raise MachineryError("non-reproducible probe failure of row %d (%s)" % (n, rows[n][0]))
+        first = [l.split("error:", 1)[1].strip() for l in out2.splitlines() if "error:" in l][:2]
+        ctx.violation("%s: the operation the check calls no longer has the signature C/C++ <cmath> gives it: %s [static_assert(%s)]: %s" % (
+            what, rows[n][0], rows[n][1], " | ".join(first)[:600]),
+            replay_lines=[{"k": "probe", "row": n, "what": rows[n][0], "static_assert": rows[n][1]}])
+        confirmed += 1
+    if len(bad) > 8:
+        ctx.log("%d further signature rows fail: %s" % (len(bad) - 8, [rows[n][0] for n in bad[8:]]))
+    return len(bad)
+
+
 # ------------------------------------------------------------------ harness
-def build_drivers(ctx):
-    """The driver is built twice: with the F16C intrinsics path compiled in and without."""
-    sw = os.path.join(ctx.work, "half_driver_sw")
-    hw = os.path.join(ctx.work, "half_driver_f16c")
-    core.build_many(ctx, [dict(src=DRIVER_SRC, out=sw, flags=["-mno-f16c"], asan=False),
-                          dict(src=DRIVER_SRC, out=hw, flags=["-mf16c"], asan=False)])
-    # the F16C build must really use the intrinsics and the other must not
-    for path, want in ((sw, False), (hw, True)):
+class Drivers:
+    """The driver builds.  The first one is the reference recording (software conversions)."""
+    def __init__(self, items):
+        self.items = items                   # [(tag, path, description)]
+
+    def path(self, tag):
+        for t, p, _ in self.items:
+            if t == tag:
+                return p
+        raise MachineryError("no driver build %r" % tag)
+
+    @property
+    def ref(self):
+        return self.items[0][0]
+
+
+def flavours(ctx):
+    """Build configurations of the driver: with and without the F16C intrinsics path (the property's two paths), and - the
+    compiler / optimisation / NDEBUG axis - a clang++ -O2 -DNDEBUG -march=native build (the flags the xtl test-suite itself is
+    built with); the thorough tier adds g++ -O0 and g++ -O2 -std=c++17."""
+    fl = [("sw", None, ["-mno-f16c"], "g++ -O1 -mno-f16c (software conversions)"),
+          ("f16c", None, ["-mf16c"], "g++ -O1 -mf16c (F16C intrinsics)"),
+          ("clang", "clang++", ["-O2", "-DNDEBUG", "-march=native"], "clang++ -O2 -DNDEBUG -march=native")]
+    if not ctx.quick:
+        fl.append(("O0", None, ["-O0", "-mno-f16c"], "g++ -O0 -mno-f16c"))
+        fl.append(("O2cxx17", None, ["-O2", "-std=c++17", "-DNDEBUG", "-march=native"], "g++ -O2 -std=c++17 -DNDEBUG -march=native"))
+    only = os.environ.get("VERIF_HALF_BUILDS")
+    if only:
+        fl = [f for f in fl if f[0] in only.split(",") or f[0] == "sw"]
+    return fl
+
+
+def build_drivers(ctx, what="C08/C09"):
+    """Probe the signatures, then build the driver in every flavour.  Returns None when the tree under test no longer offers
+    the operations with their signatures (violations have been recorded then)."""
+    nbad = probe_signatures(ctx, what)
+    fl = flavours(ctx)
+    items = [(tag, os.path.join(ctx.work, "half_driver_" + tag), desc) for tag, _, _, desc in fl]
+    try:
+        core.build_many(ctx, [dict(src=DRIVER_SRC, out=out, flags=flags, asan=False, cxx=cxx) for (tag, cxx, flags, _), (_, out, _) in zip(fl, items)])
+    except MachineryError:
+        if nbad:
+            ctx.log("the driver does not build against this tree; %d signature rows failed and are reported" % nbad)
+            return None
+        raise
+    # the F16C build must really use the intrinsics and the software build must not
+    for tag, path, _ in items:
+        if tag not in ("sw", "f16c"):
+            continue
+        want = tag == "f16c"
         rc, out = core.sh(["objdump", "-d", "--no-show-raw-insn", path], timeout=120)
         has = ("vcvtps2ph" in out) or ("vcvtph2ps" in out)
         if rc == 0 and has != want:
@@ -286,13 +479,19 @@ def build_drivers(ctx):
     with open("/proc/cpuinfo") as f:
         if "f16c" not in f.read():
             raise MachineryError("this CPU has no F16C: the intrinsics path cannot be executed")
-    return sw, hw
+    ctx.notes["driver_builds"] = {tag: desc for tag, _, desc in items}
+    return Drivers(items)
+
+
+ROW_LIMIT = 5           # CPU seconds one request row may take inside the driver before it closes the table with a Crash line
+MAX_RESTARTS = 6        # crashed / hanging rows skipped per table before the rest of the table is given up
 
 
 def run_driver(ctx, drv, req_path, out_path, timeout=1200, hang_ok=False):
     with open(req_path) as fin, open(out_path, "w") as fout:
         try:
-            p = subprocess.run([drv], stdin=fin, stdout=fout, stderr=subprocess.PIPE, timeout=timeout)
+            p = subprocess.run([drv], stdin=fin, stdout=fout, stderr=subprocess.PIPE, timeout=timeout,
+                               env=dict(os.environ, VERIF_HALF_ROW_LIMIT=str(ROW_LIMIT)))
         except subprocess.TimeoutExpired:
             if hang_ok:
                 return 124
@@ -316,13 +515,68 @@ def file_sha(path):
     return h.hexdigest()
 
 
+def record(ctx, drv, rows, out_path):
+    """Run the driver on the request rows (rows[0] is the header).  A row on which the driver crashes or does not return is
+    an incident; the driver is restarted on the rows after it, so the table holds every row that could be evaluated.
+    Returns (incidents, kept_rows): incidents = [{"row": request row, "why": ...}]."""
+    incidents, kept = [], [rows[0]]
+    pending = list(rows[1:])
+    part = 0
+    with open(out_path, "w") as fout:
+        while True:
+            req = out_path + ".req%d" % part
+            tmp = out_path + ".part%d" % part
+            write_req(req, [rows[0]] + pending)
+            rc = run_driver(ctx, drv, req, tmp)
+            done, why = 0, None
+            with open(tmp) as f:
+                for n, line in enumerate(f):
+                    if line.startswith('{"op":"Crash"'):
+                        try:
+                            why = json.loads(line).get("why", "crash")
+                        except ValueError:
+                            why = "crash"
+                        break
+                    if not line.strip():
+                        continue
+                    if n == 0 and line.startswith('{"k":"hdr"'):
+                        if part == 0:
+                            fout.write(line)
+                        continue
+                    if not line.endswith("}\n"):
+                        break                      # a torn last line: the process died while printing
+                    fout.write(line)
+                    done += 1
+            os.remove(tmp)
+            os.remove(req)
+            kept += pending[:done]
+            if done >= len(pending) and why is None and rc == 0:
+                break
+            if done >= len(pending):
+                # every row was printed and the process still ended badly (at exit): an incident without a row of its own
+                incidents.append({"row": None, "why": why or "exit status %d" % rc})
+                break
+            incidents.append({"row": pending[done], "why": why or "exit status %d" % rc})
+            pending = pending[done + 1:]
+            part += 1
+            if not pending:
+                break
+            if len(incidents) > MAX_RESTARTS:
+                incidents.append({"row": None, "why": "gave up after %d incidents; %d rows of this table were not evaluated" % (len(incidents), len(pending))})
+                break
+    return incidents, kept
+
+
 def crash_row(table_path):
-    """If the harness crashed the table ends with a Crash line: return (index of the request that crashed)."""
+    """If the harness crashed the table ends with a Crash line: return (index of the request that crashed, why)."""
     n = 0
     with open(table_path) as f:
         for line in f:
             if line.startswith('{"op":"Crash"'):
-                return n
+                try:
+                    return n, json.loads(line).get("why", "crash")
+                except ValueError:
+                    return n, "crash"
             if line.strip():
                 n += 1
     return None
@@ -353,8 +607,9 @@ def parse_counterexample(out):
     return d if "l" in d and "j" in d else None
 
 
-def replay_rows(table_path, l, j):
-    """The request (header + one row restricted to column j) that reproduces evaluation (l, j) of a table."""
+def replay_rows(table_path, l, j, build=None):
+    """The request (header + one row restricted to column j) that reproduces evaluation (l, j) of a table, with everything the
+    evaluation depended on: the row's rounding direction ("rm") and the driver build it was recorded with (header "build")."""
     hdr_row, row = None, None
     with open(table_path) as f:
         for i, line in enumerate(f, 1):
@@ -368,6 +623,8 @@ def replay_rows(table_path, l, j):
     k = row["k"]
     c = j - 1
     h = {"k": "hdr", "f": "hdr"}
+    if build:
+        h["build"] = build
     if k == "un":
         r = {"k": "un", "f": row["f"], "base": row["base"] + c, "n": 1}
     elif k in ("bin", "nt"):
@@ -390,18 +647,17 @@ def _isnan16(h):
     return (h & 0x7FFF) > 0x7C00
 
 
-def diff_recordings(t_sw, t_hw):
-    """Where do the recordings of the two builds differ?  Returns (summary per function, list of differences at
-    operands none of which is a NaN).  IEEE 754 leaves the payload/quiet bit of a NaN result open, so differences at
-    NaN operands are not findings; any other difference contradicts 'bit-identical with or without F16C'."""
+def diff_recordings(t_a, t_b):
+    """Where do two recordings of the same request differ?  Returns (summary per function, list of differences at operands none
+    of which is a NaN).  IEEE 754 leaves the payload/quiet bit of a NaN result open, so differences at NaN operands are not
+    findings; any other difference contradicts 'bit-identical whichever way the library is compiled'."""
     summ, hard = {}, []
-    with open(t_sw) as fa, open(t_hw) as fb:
+    with open(t_a) as fa, open(t_b) as fb:
         S = []
-        E = []
         for ln, (la, lb) in enumerate(zip(fa, fb), 1):
             if la == lb:
                 if ln == 1:
-                    h = json.loads(la); S = h.get("S", []); E = h.get("E", [])
+                    h = json.loads(la); S = h.get("S", [])
                 continue
             a, b = json.loads(la), json.loads(lb)
             k = a.get("k")
@@ -417,28 +673,31 @@ def diff_recordings(t_sw, t_hw):
                         nan = _isnan16(a["a"]) or _isnan16(S[c])
                     elif k == "ld":
                         nan = _isnan16(a["a"])
-                    elif k == "f2h":
+                    elif k in ("f2h", "sf2h"):
                         nan = (a["hi"][c] & 0x7F80) == 0x7F80 and ((a["hi"][c] & 0x7F) or a["lo"][c])
                     elif k == "d2h":
                         nan = (a["w3"][c] & 0x7FF0) == 0x7FF0 and ((a["w3"][c] & 0xF) or a["w2"][c] or a["w1"][c] or a["w0"][c])
-                    elif k == "fma":
+                    elif k in ("fma", "tri"):
                         nan = _isnan16(a["x"][c]) or _isnan16(a["y"][c]) or _isnan16(a["z"][c])
+                    elif k == "pair":
+                        nan = _isnan16(a["x"][c]) or _isnan16(a["y"][c])
                     else:
                         nan = False
                     summ[a["f"]] = summ.get(a["f"], 0) + 1
                     if not nan and len(hard) < 20:
-                        hard.append({"l": ln, "j": c + 1, "f": a["f"], "field": key, "software": x, "f16c": y})
+                        hard.append({"l": ln, "j": c + 1, "f": a["f"], "field": key, "first": x, "second": y})
     return summ, hard
 
 
 class Job:
     def __init__(self, name, rows, hang_timeout=None):
-        self.name, self.rows = name, rows
+        self.name, self.rows = name, rows     # rows: list, or a callable that produces it when the job starts
         self.n_eval = 0
-        self.hang_timeout = hang_timeout      # tiny jobs only: a harness that does not finish in this many seconds is a finding
+        self.hang_timeout = hang_timeout      # kept for compatibility: every row now has a CPU limit inside the driver
 
 
 HANG_TIMEOUT = 60
+MAX_CONFIRM = 8          # rejections re-executed and reported with a replay; further ones are counted
 
 
 def count_evals(rows, per_fn=None):
@@ -465,113 +724,147 @@ def count_evals(rows, per_fn=None):
     return n
 
 
-def validate_jobs(ctx, jobs, sw, hw, parallel=None, workers=None, what="C08"):
-    """For each job: run both harness builds, compare the recordings, let TLC validate the recording
-    (and the second one too if it differs).  Violations are confirmed by re-execution before they are
-    reported.  Returns the list of per-job summaries."""
+def validate_jobs(ctx, jobs, drivers, parallel=None, workers=None, what="C08"):
+    """For each job: run every driver build, compare the recordings, let TLC validate the reference recording and every
+    recording that differs from an already validated one.  Violations are confirmed by re-execution before they are reported.
+    Returns the list of per-job summaries."""
     tdir = ctx.sub("tables")
     only = os.environ.get("VERIF_HALF_ONLY")          # development aid: run only the jobs whose name starts with one of these prefixes
     if only:
         jobs = [j for j in jobs if any(j.name.startswith(p) for p in only.split(","))]
         ctx.notes["job_filter"] = "PARTIAL RUN: VERIF_HALF_ONLY=%s" % only
         ctx.log("PARTIAL RUN (VERIF_HALF_ONLY=%s): %d jobs" % (only, len(jobs)))
+    workers = workers or 2
     parallel = parallel or max(2, core.NCPU // 2)
-    workers = workers or max(2, core.NCPU // parallel)
+    if os.environ.get("VERIF_NCPU"):
+        parallel = max(1, min(parallel, core.NCPU // workers))
     summaries = []
 
     def one(job):
-        req = os.path.join(tdir, job.name + ".req")
-        t_sw = os.path.join(tdir, job.name + ".sw.ndjson")
-        t_hw = os.path.join(tdir, job.name + ".f16c.ndjson")
-        write_req(req, job.rows)
+        if callable(job.rows):
+            job.rows = job.rows()
         job.per_fn = {}
         job.n_eval = count_evals(job.rows, job.per_fn)
-        if job.hang_timeout:
-            for tag, drv, tp in (("sw", sw, t_sw), ("f16c", hw, t_hw)):
-                if run_driver(ctx, drv, req, tp, timeout=job.hang_timeout, hang_ok=True) == 124:
-                    return {"job": job.name, "evaluations": job.n_eval, "f16c_identical": True,
-                            "fails": [{"build": tag, "hang": True, "rows": job.rows, "timeout": job.hang_timeout}]}
-        else:
-            run_driver(ctx, sw, req, t_sw)
-            run_driver(ctx, hw, req, t_hw)
-        same = file_sha(t_sw) == file_sha(t_hw)
-        res = {"job": job.name, "evaluations": job.n_eval, "f16c_identical": same, "fails": []}
-        if not same:
-            res["f16c_diff"], hard = diff_recordings(t_sw, t_hw)
-            for hd in hard[:3]:
-                res["fails"].append({"build": "f16c", "table": t_hw, "l": hd["l"], "j": hd["j"], "f": hd["f"], "builds_differ": hd,
-                                     "text": "results differ between the builds: %s" % json.dumps(hd)})
-        for tag, path in (("sw", t_sw),) + ((() if same else (("f16c", t_hw),))):
-            cr = crash_row(path)
-            if cr is not None:
-                res["fails"].append({"build": tag, "table": path, "crash_at_request": cr})
+        res = {"job": job.name, "evaluations": job.n_eval, "identical": True, "f16c_identical": True, "fails": [], "validated_tables": 0}
+        tabs = {}
+        for tag, drv, _ in drivers.items:
+            path = os.path.join(tdir, "%s.%s.ndjson" % (job.name, tag))
+            inc, kept = record(ctx, drv, job.rows, path)
+            tabs[tag] = {"path": path, "incidents": inc, "kept": kept, "sha": file_sha(path)}
+            for i in inc:
+                res["fails"].append({"build": tag, "incident": i, "hdr": job.rows[0]})
+        ref = drivers.ref
+        validated = {}
+        for tag, _, _ in drivers.items:
+            t = tabs[tag]
+            if t["sha"] in validated:
                 continue
-            r = core.tlc(ctx, "HalfCheck", "HalfCheck.cfg", name="chk-%s-%s" % (job.name, tag), workers=workers,
-                         env={"TABLE": path}, heap="5g", timeout=3000)
-            res.setdefault("tlc", []).append({"build": tag, "states": r["distinct"], "wall_s": r["wall_s"]})
-            if r["violated"]:
-                ce = parse_counterexample(r["out"])
-                if ce is None:
-                    raise MachineryError("TLC reported %s but no counterexample could be read, see %s" % (r["violated"], r["outfile"]))
-                ce["build"], ce["table"] = tag, path
-                res["fails"].append(ce)
-            elif r["distinct"] != job.n_eval:
-                raise MachineryError("TLC visited %d states, the table %s has %d evaluations (see %s)" % (r["distinct"], path, job.n_eval, r["outfile"]))
-            r["out"] = ""
+            if tag != ref:
+                res["identical"] = False
+                if tag == "f16c":
+                    res["f16c_identical"] = False
+                if not t["incidents"] and not tabs[ref]["incidents"]:
+                    summ, hard = diff_recordings(tabs[ref]["path"], t["path"])
+                    res.setdefault("build_diff", {})[tag] = summ
+                    for hd in hard[:3]:
+                        res["fails"].append({"build": tag, "table": t["path"], "l": hd["l"], "j": hd["j"], "f": hd["f"], "builds_differ": hd,
+                                             "text": "results differ between the builds %s and %s: %s" % (ref, tag, json.dumps(hd))})
+            n_eval = count_evals(t["kept"])
+            if n_eval:
+                r = core.tlc(ctx, "HalfCheck", "HalfCheck.cfg", name="chk-%s-%s" % (job.name, tag), workers=workers,
+                             env={"TABLE": t["path"]}, heap="5g", timeout=3000)
+                res.setdefault("tlc", []).append({"build": tag, "states": r["distinct"], "wall_s": r["wall_s"]})
+                if r["violated"]:
+                    ce = parse_counterexample(r["out"])
+                    if ce is None:
+                        raise MachineryError("TLC reported %s but no counterexample could be read, see %s" % (r["violated"], r["outfile"]))
+                    ce["build"], ce["table"] = tag, t["path"]
+                    res["fails"].append(ce)
+                elif r["distinct"] != n_eval:
+                    raise MachineryError("TLC visited %d states, the table %s has %d evaluations (see %s)" % (r["distinct"], t["path"], n_eval, r["outfile"]))
+                r["out"] = ""
+                res["validated_tables"] += 1
+            validated[t["sha"]] = tag
         return res
 
     with ThreadPoolExecutor(max_workers=parallel) as ex:
         for res in ex.map(one, jobs):
             summaries.append(res)
-            ctx.cov["evaluations"] += res["evaluations"] * (1 if res["f16c_identical"] else 2)
+            ctx.cov["evaluations"] += res["evaluations"] * max(1, res["validated_tables"])
     per_fn = {}
     for job in jobs:
         for f, c in getattr(job, "per_fn", {}).items():
             per_fn[f] = per_fn.get(f, 0) + c
     ctx.notes["evaluations_per_function"] = per_fn
     ctx.notes["vacuous_functions"] = sorted(f for f, c in per_fn.items() if c == 0)
-    # confirm and report
-    for res in summaries:
-        for fl in res["fails"]:
-            confirm_and_report(ctx, fl, sw, hw, what)
+    report_fails(ctx, [fl for res in summaries for fl in res["fails"]], drivers, what)
     return summaries
 
 
-def confirm_and_report(ctx, fl, sw, hw, what):
-    if fl.get("hang"):
-        drv = sw if fl["build"] == "sw" else hw
-        d = ctx.sub("replay")
-        req = os.path.join(d, "hang.req")
-        write_req(req, fl["rows"])
-        if run_driver(ctx, drv, req, os.path.join(d, "hang.ndjson"), timeout=fl["timeout"], hang_ok=True) != 124:
-            raise MachineryError("non-reproducible harness time-out on %s" % json.dumps(fl["rows"])[:300])
-        ctx.violation("%s: a call does not terminate: the harness (build %s) did not finish %s within %d s (twice)" % (
-            what, fl["build"], json.dumps(fl["rows"][1:])[:300], fl["timeout"]), replay_lines=fl["rows"])
+def report_fails(ctx, fails, drivers, what):
+    """Confirm (re-execute alone, same build, same rounding direction) and report.  At most MAX_CONFIRM rejections are
+    re-executed - one per function and kind first - the others are counted: a pervasive defect must not make the check crawl."""
+    if not fails:
         return
-    if "crash_at_request" in fl:
-        with open(fl["table"].replace(".sw.ndjson", ".req").replace(".f16c.ndjson", ".req")) as f:
-            lines = [json.loads(x) for x in f if x.strip()]
-        rows = [lines[0], lines[fl["crash_at_request"]]]
-        ctx.violation("%s: the harness crashed (signal/terminate) while evaluating request %s (build %s)" % (
-            what, json.dumps(rows[1])[:300], fl["build"]), replay_lines=rows)
-        return
-    rows = replay_rows(fl["table"], fl["l"], fl["j"])
+
+    def kind(fl):
+        if "incident" in fl:
+            return ("incident", (fl["incident"].get("row") or {}).get("f", "?"))
+        return ("differ" if "builds_differ" in fl else "spec", fl.get("f", "?"))
+    seen, first, rest = set(), [], []
+    for fl in fails:
+        k = kind(fl)
+        (rest if k in seen else first).append(fl)
+        seen.add(k)
+    chosen = (first + rest)[:MAX_CONFIRM]
+    skipped = len(fails) - len(chosen)
+    with ThreadPoolExecutor(max_workers=max(1, min(4, core.NCPU // 2))) as ex:
+        outcomes = list(ex.map(lambda fl: confirm(ctx, fl, drivers), chosen))
+    nonrepro = []
+    for fl, (ok, text, rows) in zip(chosen, outcomes):
+        if ok:
+            ctx.violation("%s: %s" % (what, text), replay_lines=rows)
+        else:
+            nonrepro.append(text)
+    if skipped:
+        ctx.log("%d further rejected evaluations were not re-executed (kinds: %s)" % (skipped, sorted(set(kind(f) for f in (first + rest)[MAX_CONFIRM:]))[:12]))
+        ctx.notes["rejections_not_reexecuted"] = skipped
+    if nonrepro and not ctx.violations:
+        raise MachineryError("non-reproducible rejection(s): " + " || ".join(nonrepro)[:1500])
+    for t in nonrepro:
+        ctx.log("non-reproducible (not reported): " + t[:400])
+
+
+def confirm(ctx, fl, drivers):
+    """-> (confirmed, text, replay rows)"""
+    tag = fl["build"]
+    drv = drivers.path(tag)
+    if "incident" in fl:
+        inc = fl["incident"]
+        if inc["row"] is None:
+            return True, "the harness (build %s) ended abnormally: %s" % (tag, inc["why"]), [dict(fl["hdr"], build=tag)]
+        rows = [dict(fl["hdr"], build=tag), inc["row"]]
+        ok, ce = run_replay(ctx, drv, rows, "confirm-incident-%s-%s-%d" % (tag, inc["row"].get("f", "x"), id(fl) % 100000))
+        if ok or not (ce or {}).get("incident"):
+            return False, "harness incident (%s) on %s did not repeat" % (inc["why"], json.dumps(inc["row"])[:300]), rows
+        return True, ("a call %s: the harness (build %s) %s while evaluating %s (twice)" % (
+            "does not return" if inc["why"] == "timeout" else "crashes", tag,
+            "used more than %d s of CPU on one request row" % ROW_LIMIT if inc["why"] == "timeout" else "ended with %s" % inc["why"],
+            json.dumps(inc["row"])[:300])), rows
+    rows = replay_rows(fl["table"], fl["l"], fl["j"], build=tag)
     if "builds_differ" in fl:
         d = ctx.sub("replay")
-        req = os.path.join(d, "diff-%d-%d.req" % (fl["l"], fl["j"]))
+        req = os.path.join(d, "diff-%s-%d-%d.req" % (tag, fl["l"], fl["j"]))
         write_req(req, rows)
-        run_driver(ctx, sw, req, req + ".sw")
-        run_driver(ctx, hw, req, req + ".f16c")
-        if file_sha(req + ".sw") == file_sha(req + ".f16c"):
-            raise MachineryError("non-reproducible difference between the builds: %s" % fl["text"])
-        ctx.violation("%s: result not bit-identical with and without F16C at a non-NaN operand: %s" % (what, fl["text"]), replay_lines=rows)
-        return
-    drv = sw if fl["build"] == "sw" else hw
-    ok, ce = run_replay(ctx, drv, rows, "confirm-%s-%d-%d" % (fl.get("f", "x"), fl["l"], fl["j"]))
+        run_driver(ctx, drivers.path(drivers.ref), req, req + ".ref")
+        run_driver(ctx, drv, req, req + ".other")
+        if file_sha(req + ".ref") == file_sha(req + ".other"):
+            return False, "difference between the builds did not repeat: %s" % fl["text"], rows
+        return True, "result not bit-identical between two builds of the library at a non-NaN operand: %s" % fl["text"], rows
+    ok, ce = run_replay(ctx, drv, rows, "confirm-%s-%s-%d-%d" % (tag, fl.get("f", "x"), fl["l"], fl["j"]))
     if ok:
-        raise MachineryError("non-reproducible rejection: %s was rejected in the table run but accepted when re-executed alone" % fl["text"][:400])
-    ctx.violation("%s: half_float::half disagrees with Half.tla (build %s): %s" % (what, "F16C" if fl["build"] == "f16c" else "software", (ce or fl)["text"][:1500]),
-                  replay_lines=rows)
+        return False, "%s was rejected in the table run but accepted when re-executed alone" % fl["text"][:400], rows
+    return True, "half_float::half disagrees with Half.tla (build %s): %s" % (tag, (ce or fl)["text"][:1500]), rows
 
 
 def run_replay(ctx, drv, rows, name):
@@ -579,10 +872,13 @@ def run_replay(ctx, drv, rows, name):
     req = os.path.join(d, name + ".req")
     tab = os.path.join(d, name + ".ndjson")
     write_req(req, rows)
-    if run_driver(ctx, drv, req, tab, timeout=HANG_TIMEOUT, hang_ok=True) == 124:
-        return False, {"text": "the call does not terminate (harness still running after %d s)" % HANG_TIMEOUT}
-    if crash_row(tab) is not None:
-        return False, {"text": "harness crashed"}
+    if run_driver(ctx, drv, req, tab, timeout=HANG_TIMEOUT + 2 * ROW_LIMIT, hang_ok=True) == 124:
+        return False, {"text": "the call does not terminate (harness still running after %d s)" % (HANG_TIMEOUT + 2 * ROW_LIMIT), "incident": True}
+    cr = crash_row(tab)
+    if cr is not None:
+        return False, {"text": "harness ended with %s" % cr[1], "incident": True}
+    if count_evals(rows) == 0:
+        return True, None
     r = core.tlc(ctx, "HalfCheck", "HalfCheck.cfg", name=name, workers=1, env={"TABLE": tab}, timeout=300)
     if r["violated"]:
         return False, parse_counterexample(r["out"])
@@ -591,25 +887,194 @@ def run_replay(ctx, drv, rows, name):
 
 def replay(ctx, path, pid):
     rows = [l for l in core.read_ndjson(path) if "_meta" not in l]
-    sw, hw = build_drivers(ctx)
+    if rows and rows[0].get("k") == "probe":
+        n = probe_signatures(ctx, pid)
+        if n == 0:
+            print("replay accepted: every signature row compiles")
+        return 1 if n else 0
+    drivers = build_drivers(ctx, pid)
+    if drivers is None:
+        for p, t in ctx.violations:
+            print("VIOLATION property=%s replay=%s" % (pid, path))
+            print("  " + t[:1500])
+        return 1
+    want = rows[0].get("build") if rows else None
+    tags = [t for t, _, _ in drivers.items if want is None or t in (drivers.ref, want)]
+    if want and want not in tags:
+        raise MachineryError("the replay names the driver build %r, which this tier does not build (try --tier thorough)" % want)
     bad = 0
-    for tag, drv in (("software", sw), ("F16C", hw)):
-        ok, ce = run_replay(ctx, drv, rows, "replay-" + tag)
+    tabs = {}
+    for tag in tags:
+        ok, ce = run_replay(ctx, drivers.path(tag), rows, "replay-" + tag)
+        tabs[tag] = os.path.join(ctx.work, "replay", "replay-%s.ndjson" % tag)
         if ok:
-            print("replay accepted (%s build): the recorded operands now conform to Half.tla" % tag)
+            print("replay accepted (build %s): the recorded operands now conform to Half.tla" % tag)
         else:
             bad += 1
             print("VIOLATION property=%s replay=%s" % (pid, path))
-            print("  %s build: %s" % (tag, (ce or {}).get("text", "?")[:1500]))
-    d = os.path.join(ctx.work, "replay")
-    ta, tb = os.path.join(d, "replay-software.ndjson"), os.path.join(d, "replay-F16C.ndjson")
-    if os.path.exists(ta) and os.path.exists(tb):
-        summ, hard = diff_recordings(ta, tb)
-        if hard:
-            bad += 1
-            print("VIOLATION property=%s replay=%s" % (pid, path))
-            print("  results differ between the software and the F16C build at a non-NaN operand: %s" % json.dumps(hard[:3]))
+            print("  build %s: %s" % (tag, (ce or {}).get("text", "?")[:1500]))
+    for tag in tags[1:]:
+        ta, tb = tabs[tags[0]], tabs[tag]
+        if os.path.exists(ta) and os.path.exists(tb) and crash_row(ta) is None and crash_row(tb) is None:
+            summ, hard = diff_recordings(ta, tb)
+            if hard:
+                bad += 1
+                print("VIOLATION property=%s replay=%s" % (pid, path))
+                print("  results differ between the builds %s and %s at a non-NaN operand: %s" % (tags[0], tag, json.dumps(hard[:3])))
     return 1 if bad else 0
+
+
+# ------------------------------------------------------------------ operand pairs chosen by the oracle's case analysis
+def case_search_space(seed, quick, op):
+    """The bounded search of specs/HalfCases.tla (inputs only).  Part 1, regimes: first operands = every exponent field x a few
+    fractions, second operands = every exponent field x (fractions with at most two bits set, complements of single bits, seeded
+    random ones) x both signs - any alignment distance and any result range (subnormal, overflow) with simple dropped parts.
+    Part 2, patterns: first operands at a few exponent fields with many fractions (boundary and seeded random ones) against EVERY
+    fraction at a few exponent fields - any pattern of dropped bits (exact ties, one unit beside a tie) in the normal and the
+    subnormal result range."""
+    rnd = random.Random(seed * 6007 + 11)
+    my = {0}
+    for i in range(10):
+        my.add(1 << i)
+        my.add(0x3FF ^ (1 << i))
+        for j in range(i):
+            my.add((1 << i) | (1 << j))
+    my.add(0x3FF)
+    mx = [0, 0x3FF, 0x155, 1] if quick else [0, 0x3FF, 0x155, 1, 0x200, 0x2AA, 0x3FE, 0x1FF, 0x201, 2]
+    for _ in range(1 if quick else 2):
+        mx.append(rnd.getrandbits(10))
+    for _ in range(8 if quick else 60):
+        my.add(rnd.getrandbits(10))
+    fr = [0, 1, 2, 3, 0x1FF, 0x200, 0x201, 0x3FE, 0x3FF, 0x155, 0x2AA, 0x0FF, 0x100, 0x101, 0x333, 0x0CC]
+    while len(fr) < (40 if quick else 160):
+        v = rnd.getrandbits(10) | (rnd.getrandbits(1))        # odd fractions twice as often: products and quotients with low bits set
+        if v not in fr:
+            fr.append(v)
+    # pattern part: operands around 1 (results in the normal range) and, for products / quotients / remainders, an exponent pairing
+    # that puts the result into the subnormal range
+    xm = [(15 << 10) | m for m in fr] + [(2 << 10) | m for m in fr[:(12 if quick else 60)]]
+    yme = [15, 13] if quick else [15, 14, 13, 3, 16, 25]
+    return {"EX": list(range(32)), "MX": sorted(set(mx)), "EY": list(range(32)), "MY": sorted(my), "XPLUS": XPLUS, "YPLUS": [], "XM": sorted(set(xm) - set(XPLUS)), "YME": yme}
+
+
+XPLUS = [0x8000, 0xFC00, 0xFE00, 0x8400, 0xFBFF, 0x8001]
+
+
+def write_cases_cfg(path, op, sp):
+    def st(xs):
+        return "{" + ", ".join(str(v) for v in xs) + "}"
+    with open(path, "w") as f:
+        f.write("SPECIFICATION Spec\nCONSTANTS\n OP = \"%s\"\n" % op)
+        for k in ("EX", "MX", "EY", "MY", "XPLUS", "YPLUS", "XM", "YME"):
+            f.write(" %s = %s\n" % (k, st(sp[k])))
+        f.write("INVARIANT KeyConsistent\nVIEW View\nCHECK_DEADLOCK FALSE\n")
+
+
+_RE_DUMP = re.compile(r"/\\ x = (\d+)\s*\n/\\ y = (\d+)\s*\n/\\ ph = (\d+)")
+
+
+def enumerate_cases(ctx, op, sp, name):
+    """TLC enumerates the search space with VIEW = case key: distinct states = cases reached, the dumped states = one witness pair
+    per case.  One worker: the witness TLC keeps for a case is then the first in its deterministic search order."""
+    d = ctx.sub("cases")
+    cfg = os.path.join(d, name + ".cfg")
+    dump = os.path.join(d, name + ".dump")
+    write_cases_cfg(cfg, op, sp)
+    r = core.tlc(ctx, "HalfCases", cfg, name=name, workers=1, extra=["-dump", dump], timeout=3000, heap="3g")
+    if r["violated"] or r["rc"] != 0:
+        raise MachineryError("HalfCases: the case analysis of %s does not reproduce Half.tla's operator (%s) - an oracle bug, see %s" % (op, r["violated"], r["outfile"]))
+    with open(dump) as f:
+        st = _RE_DUMP.findall(f.read())
+    pairs = [(int(x), int(y)) for x, y, ph in st if ph == "1"]
+    nx = sum(1 for _, _, ph in st if ph == "0")
+    if len(pairs) + nx != r["distinct"] or not pairs:
+        raise MachineryError("HalfCases %s: %d states dumped, TLC reports %d distinct (see %s)" % (name, len(pairs) + nx, r["distinct"], r["outfile"]))
+    r["out"] = ""
+    ctx.cov["states"] += r["distinct"]
+    ctx.cov["transitions"] += r["generated"]
+    return pairs, r
+
+
+def pair_rows(f, pairs, per=1024, rm=None):
+    rows = []
+    for n, c in enumerate(chunks(pairs, per)):
+        r = {"k": "pair", "f": f, "x": [p[0] for p in c], "y": [p[1] for p in c]}
+        if rm is not None:
+            r["rm"] = 1 + (rm + n) % 3
+        rows.append(r)
+    return rows
+
+
+def case_job(ctx, op, counts, pid="C08"):
+    """A job whose rows are the witness pairs TLC enumerates for op.  C08: evaluated as given, swapped, with the second operand
+    negated (subtraction is addition of the negated operand), in compound-assignment form, and once more under a directed
+    rounding direction of the calling thread.  C09: the functions whose case analysis is the same (fdim - addition; fmax, fmin,
+    nextafter - comparison; fmod, remainder, remquo - their own)."""
+    def rows():
+        pairs, r = enumerate_cases(ctx, op, case_search_space(ctx.seed, ctx.quick, op), "cases-" + op)
+        counts[op] = {"cases": len(pairs), "search_space": r["generated"], "tlc_wall_s": r["wall_s"]}
+        ctx.sample({"case_witness_pairs_" + op: ["0x%04X, 0x%04X" % p for p in pairs[len(pairs) // 2:len(pairs) // 2 + 6]]})
+        swapped = [(b, a) for a, b in pairs]
+        negy = [(a, b ^ 0x8000) for a, b in pairs]
+        out = [hdr(S=[0])]
+        if pid == "C08":
+            if op == "add":
+                out += pair_rows("add", pairs) + pair_rows("add", swapped) + pair_rows("sub", negy) + pair_rows("sub", [(b ^ 0x8000, a ^ 0x8000) for a, b in pairs])
+                out += pair_rows("add_eq", pairs) + pair_rows("sub_eq", negy) + pair_rows("add", pairs, rm=ctx.seed) + pair_rows("sub", negy, rm=ctx.seed + 1)
+            elif op == "mul":
+                out += pair_rows("mul", pairs) + pair_rows("mul", swapped) + pair_rows("mul_eq", pairs) + pair_rows("mul", pairs, rm=ctx.seed)
+            elif op == "div":
+                out += pair_rows("div", pairs) + pair_rows("div_eq", pairs) + pair_rows("div", pairs, rm=ctx.seed)
+            elif op == "cmp":
+                out += pair_rows("cmp", pairs) + pair_rows("cmp", swapped) + pair_rows("cmp", pairs, rm=ctx.seed)
+        else:
+            if op == "add":
+                out += pair_rows("fdim", negy) + pair_rows("fdim", [(b ^ 0x8000, a ^ 0x8000) for a, b in pairs]) + pair_rows("fdim", negy, rm=ctx.seed)
+            elif op == "cmp":
+                for f in ("fmax", "fmin", "nextafter", "fdim"):
+                    out += pair_rows(f, pairs) + pair_rows(f, swapped)
+                out += pair_rows("nextafter", pairs, rm=ctx.seed)
+            elif op == "mod":
+                for f in ("fmod", "remainder", "remquo"):
+                    out += pair_rows(f, pairs) + pair_rows(f, negy)
+                out += pair_rows("remainder", pairs, rm=ctx.seed) + pair_rows("fmod", pairs, rm=ctx.seed + 1) + pair_rows("remquo", pairs, rm=ctx.seed + 2)
+        return out
+    return Job("cases-" + op, rows)
+
+
+def grid_case_count_job(ctx, op, S, counts):
+    """How many cases of HalfCases.tla does the structured grid S x S reach?  (a TLC count only: the pairs are executed by the
+    S x S jobs themselves)"""
+    def rows():
+        sp = {"EX": [], "MX": [], "EY": [], "MY": [], "XPLUS": list(S), "YPLUS": list(S), "XM": [], "YME": []}
+        pairs, r = enumerate_cases(ctx, op, sp, "gridcases-" + op)
+        counts[op] = {"cases": len(pairs), "search_space": r["generated"], "tlc_wall_s": r["wall_s"]}
+        return [hdr(S=[0])]
+    return Job("gridcases-" + op, rows)
+
+
+def specials_job(name, ops, extra=()):
+    """REQUIRED x REQUIRED (and further boundary operands) for each binary operation, as a table of its own: a defect confined
+    to signed zeros, the subnormal boundary, the overflow threshold or NaNs is reported on its own and never depends on a seed."""
+    S = list(REQUIRED) + [h for h in extra if h not in REQUIRED]
+    rows = [hdr(S=S)]
+    for op in ops:
+        if op == "nexttoward":
+            rows += [{"k": "nt", "f": "nexttoward", "a": a} for a in S]
+        else:
+            rows += bin_rows(op, S)
+    return Job(name, rows)
+
+
+def with_rm(rows, start):
+    """The same request rows, each evaluated under a directed rounding direction of the calling thread (1 upward, 2 downward,
+    3 toward zero, rotating from start)."""
+    out = []
+    for n, r0 in enumerate(rows):
+        r1 = dict(r0)
+        r1["rm"] = 1 + (start + n) % 3
+        out.append(r1)
+    return out
 
 
 def run_laws(ctx, cfg, name, workers=None):
@@ -625,7 +1090,10 @@ def run_laws(ctx, cfg, name, workers=None):
 def selftest(ctx, pid):
     """Binding demonstration on the recording itself: a small recorded table is accepted; the same table with one
     recorded field changed is rejected by TLC exactly at that evaluation; a table with one entry removed is rejected."""
-    sw, hw = build_drivers(ctx)
+    drivers = build_drivers(ctx, pid)
+    if drivers is None:
+        return 1
+    sw = drivers.path("sw")
     S = small_grid(ctx.seed, 48)
     fns = ("sqrt", "h2f") if pid == "C08" else ("rint", "frexp")
     ops = ("add", "div") if pid == "C08" else ("remainder", "nextafter")
@@ -649,9 +1117,12 @@ def selftest(ctx, pid):
         lines = [json.loads(x) for x in f if x.strip()]
     rnd = random.Random(ctx.seed)
     for trial in range(3):
-        l = rnd.randrange(2, len(lines) + 1)
-        row = json.loads(json.dumps(lines[l - 1]))
-        j = rnd.randrange(1, len(row["r"]) + 1)
+        for _ in range(200):                # a cell whose recorded value is not a NaN (all NaNs are one result for the specification)
+            l = rnd.randrange(2, len(lines) + 1)
+            row = json.loads(json.dumps(lines[l - 1]))
+            j = rnd.randrange(1, len(row["r"]) + 1)
+            if (row["r"][j - 1] & 0x7FFF) <= 0x7C00 or row["f"] == "h2f":
+                break
         row["r"][j - 1] ^= 1 << rnd.randrange(0, 10)
         bad = os.path.join(d, "bad%d.ndjson" % trial)
         with open(bad, "w") as f:
